@@ -6,6 +6,7 @@ Anything it cannot parse is answered with `bad-op` — never a default.
 import LfsModel.Pointer
 import LfsModel.FilterModel
 import LfsModel.Sha256
+import LfsModel.Creds
 open Lfs
 
 namespace Oracle
@@ -87,10 +88,38 @@ def flt : List String → String
     | _, _, _ => "bad-op"
   | _ => "bad-op"
 
+/-- insertion sort on strings (canonical order of the helper's lines) -/
+def insertStr (x : String) : List String → List String
+  | [] => [x]
+  | y :: ys => if x ≤ y then x :: y :: ys else y :: insertStr x ys
+def sortStr (l : List String) : List String := l.foldr insertStr []
+
+def parsePair (s : String) : Option (Bytes × Bytes) :=
+  match s.splitOn ":" with
+  | [k, v] => do let k ← unhex k; let v ← unhex v; pure (k, v)
+  | _ => none
+
+def c17 : List String → String
+  | ["buffer", pr, ps] =>
+    let pairs? := if ps == "-" then some [] else (ps.splitOn ",").mapM parsePair
+    match pairs? with
+    | none => "bad-op"
+    | some pairs =>
+      let c : Cr.Creds := pairs.map fun kv => (kv.1, [kv.2])
+      match Cr.buffer (pr == "1") c with
+      | none => "none"
+      | some out =>
+        -- canonical form: the LF-separated lines, hex-encoded, sorted
+        if out.getLast? != some 10 then "unterminated:" ++ hex out else
+        let ls := (Cr.splitLFAll out.dropLast)
+        String.intercalate "," (sortStr (ls.map hex))
+  | _ => "bad-op"
+
 def answer (line : String) : String :=
   match line.splitOn " " with
   | "C07" :: rest => c07 rest
   | "FLT" :: rest => flt rest
+  | "C17" :: rest => c17 rest
   | _ => "bad-op"
 
 partial def loop (h : IO.FS.Stream) (out : IO.FS.Stream) : IO Unit := do
